@@ -35,8 +35,145 @@ pub struct SinkLog {
     pub counting_only: bool,
     pub accepted_total: u64,
     pub vectored_calls: u64,
-    /// with `counting_only`: writes of at most 1 MiB are still kept, as (offset, bytes)
-    pub small_writes: Vec<(u64, Vec<u8>)>,
+    /// with `counting_only`: the accepted byte stream, run-length encoded (multi-GiB recordings are
+    /// constant filler between short headers)
+    pub rle: RleStore,
+}
+
+/// The accepted byte stream as literal pieces and runs of one byte value, in offset order.
+#[derive(Default, Debug)]
+pub struct RleStore {
+    segs: Vec<RleSeg>,
+    len: u64,
+}
+
+#[derive(Debug)]
+enum RleSeg {
+    Lit(u64, Vec<u8>),
+    Run(u64, u8, u64),
+}
+
+impl RleSeg {
+    fn start(&self) -> u64 {
+        match self {
+            RleSeg::Lit(o, _) | RleSeg::Run(o, _, _) => *o,
+        }
+    }
+    fn len(&self) -> u64 {
+        match self {
+            RleSeg::Lit(_, b) => b.len() as u64,
+            RleSeg::Run(_, _, n) => *n,
+        }
+    }
+}
+
+impl RleStore {
+    const MIN_RUN: usize = 64;
+
+    fn lit(&mut self, off: u64, b: &[u8]) {
+        if b.is_empty() {
+            return;
+        }
+        if let Some(RleSeg::Lit(o, v)) = self.segs.last_mut() {
+            if *o + v.len() as u64 == off {
+                v.extend_from_slice(b);
+                return;
+            }
+        }
+        self.segs.push(RleSeg::Lit(off, b.to_vec()));
+    }
+
+    fn run(&mut self, off: u64, byte: u8, n: u64) {
+        if let Some(RleSeg::Run(o, b, m)) = self.segs.last_mut() {
+            if *b == byte && *o + *m == off {
+                *m += n;
+                return;
+            }
+        }
+        self.segs.push(RleSeg::Run(off, byte, n));
+    }
+
+    /// Appends `buf` (the stream is written front to back).
+    pub fn push(&mut self, buf: &[u8]) {
+        let base = self.len;
+        let mut i = 0;
+        let mut lit_start = 0;
+        while i < buf.len() {
+            let b = buf[i];
+            let j = i + 1 + buf[i + 1..].iter().position(|&x| x != b).unwrap_or(buf.len() - i - 1);
+            if j - i >= Self::MIN_RUN {
+                let (ls, le) = (lit_start, i);
+                self.lit(base + ls as u64, &buf[ls..le]);
+                self.run(base + i as u64, b, (j - i) as u64);
+                lit_start = j;
+            }
+            i = j;
+        }
+        self.lit(base + lit_start as u64, &buf[lit_start..]);
+        self.len += buf.len() as u64;
+    }
+
+    fn first_overlapping(&self, off: u64) -> usize {
+        // the last segment starting at or before `off`
+        self.segs.partition_point(|s| s.start() <= off).saturating_sub(1)
+    }
+
+    /// `n` bytes at `off`, if the stream has them.
+    pub fn read(&self, off: u64, n: usize) -> Option<Vec<u8>> {
+        if off.checked_add(n as u64)? > self.len {
+            return None;
+        }
+        let mut out = Vec::with_capacity(n);
+        let mut k = self.first_overlapping(off);
+        let mut pos = off;
+        while out.len() < n {
+            let s = self.segs.get(k)?;
+            let from = pos - s.start();
+            let take = ((s.len() - from) as usize).min(n - out.len());
+            match s {
+                RleSeg::Lit(_, b) => out.extend_from_slice(&b[from as usize..from as usize + take]),
+                RleSeg::Run(_, byte, _) => out.resize(out.len() + take, *byte),
+            }
+            pos += take as u64;
+            k += 1;
+        }
+        Some(out)
+    }
+
+    /// Does the stream hold exactly `data` at `off`?
+    pub fn holds(&self, off: u64, data: &[u8]) -> bool {
+        match off.checked_add(data.len() as u64) {
+            Some(e) if e <= self.len => {}
+            _ => return false,
+        }
+        let mut k = self.first_overlapping(off);
+        let mut pos = off;
+        let mut done = 0usize;
+        while done < data.len() {
+            let s = match self.segs.get(k) {
+                Some(s) => s,
+                None => return false,
+            };
+            let from = pos - s.start();
+            let take = ((s.len() - from) as usize).min(data.len() - done);
+            let want = &data[done..done + take];
+            let same = match s {
+                RleSeg::Lit(_, b) => &b[from as usize..from as usize + take] == want,
+                RleSeg::Run(_, byte, _) => want.iter().all(|x| x == byte),
+            };
+            if !same {
+                return false;
+            }
+            pos += take as u64;
+            done += take;
+            k += 1;
+        }
+        true
+    }
+
+    pub fn segments(&self) -> usize {
+        self.segs.len()
+    }
 }
 
 impl SinkLog {
@@ -216,8 +353,8 @@ impl Write for SimSink {
         }
         if !log.counting_only {
             log.bytes.extend_from_slice(&buf[..n]);
-        } else if n <= (1 << 20) {
-            log.small_writes.push((offset, buf[..n].to_vec()));
+        } else {
+            log.rle.push(&buf[..n]);
         }
         log.accepted_total += n as u64;
         ev(&mut log, Outcome::Accepted(n as u32));
@@ -242,5 +379,59 @@ impl Write for SimSink {
         }
         self.log.lock().unwrap().vectored_calls += 1;
         self.write(&flat)
+    }
+}
+
+#[cfg(test)]
+mod rle_tests {
+    use super::RleStore;
+
+    #[test]
+    fn rle_round_trip() {
+        let mut x: u64 = 88172645463325252;
+        let mut next = move || {
+            x ^= x << 13;
+            x ^= x >> 7;
+            x ^= x << 17;
+            x
+        };
+        for _ in 0..200 {
+            let mut all = Vec::new();
+            let mut st = RleStore::default();
+            for _ in 0..(next() % 8 + 1) {
+                let mut w = Vec::new();
+                for _ in 0..(next() % 6) {
+                    if next() % 2 == 0 {
+                        let n = (next() % 300) as usize;
+                        let b = (next() % 3) as u8;
+                        w.extend(std::iter::repeat(b).take(n));
+                    } else {
+                        let n = (next() % 40) as usize;
+                        for _ in 0..n {
+                            w.push((next() % 4) as u8);
+                        }
+                    }
+                }
+                st.push(&w);
+                all.extend_from_slice(&w);
+            }
+            assert_eq!(st.read(0, all.len()).unwrap(), all);
+            for _ in 0..50 {
+                if all.is_empty() {
+                    break;
+                }
+                let a = (next() as usize) % all.len();
+                let n = (next() as usize) % (all.len() - a + 1);
+                assert_eq!(st.read(a as u64, n).unwrap(), &all[a..a + n]);
+                assert!(st.holds(a as u64, &all[a..a + n]));
+                if n > 0 {
+                    let mut d = all[a..a + n].to_vec();
+                    let k = (next() as usize) % n;
+                    d[k] ^= 0x40;
+                    assert!(!st.holds(a as u64, &d));
+                }
+            }
+            assert!(st.read(all.len() as u64, 1).is_none());
+        }
     }
 }
